@@ -54,6 +54,12 @@ class WireNcp(simncp.SimNcp):
                 self.last_resp_seq = payload[0]
                 self.loop.call_later(self.delay, self._deliver, resp)
                 return
+            if len(payload) == 3 and payload[1] == 0x00 and payload[2] == 0x05 and lay != "legacy":
+                # a legacy-framed nop before the negotiation is complete: correctly framed for that moment, just not
+                # something this NCP answers yet
+                self.requests.append((now, "legacy-premature", "nop", payload))
+                self.ignored.append(payload)
+                return
             p = refezsp.parse(self.table_version, payload)
             if (self.legacy_query_seen and p is not None and lay != "legacy" and p[2] == 0x0000
                     and len(p[3]) == 1 and p[3][0] == (V & 0xFF)):
